@@ -243,7 +243,10 @@ ConsensusFaultPaid(pre, e) ==
 \* and power estimates and is not re-derived here; with equal-sized sectors it is positive whenever a sector is faulty.)
 ClosingIn(M, E, n) == {x \in E..(E + n - 1) : (x - M.pps) % W_ = W_ - 1}
 ContinuedFaultCharged(pre, e, lost) ==
-  (e.ev = "Tick" /\ e.cronOK /\ Len(e.fails) = 0) =>
+  \* (the fee is a share of the expected block reward: it is positive only while the network's smoothed QA-power
+  \* estimate is positive; in the harness's tiny network the alpha-beta filter, started at the protocol's initial
+  \* estimate, undershoots below zero after about a thousand epochs -- outside that regime nothing is demanded)
+  (e.ev = "Tick" /\ e.cronOK /\ Len(e.fails) = 0 /\ BIsPos(pre.power.qaSmoothed) /\ BIsPos(e.st.power.qaSmoothed)) =>
     \A i \in Idx(pre.miners) :
       LET M1 == pre.miners[i] cl == ClosingIn(M1, pre.epoch, e.n) IN
       (M1.cronActive /\ M1.m \notin lost /\ Cardinality(cl) = 1) =>
@@ -261,6 +264,9 @@ DisputePenalised(pre, e) ==
          burnt == SentFrom(e.tr, e.m, "f099")
          paid == SentFrom(e.tr, e.m, "rep")
      IN  /\ BIsPos(BAdd(BAdd(burnt, paid), BSub(M2.debt, M1.debt)))
+         \* with the transfer to the disputer failing, the charge is what the same dispute charges when it succeeds
+         \* (twin execution on a checkpoint): the undeliverable share is burnt, not kept
+         /\ ("twinCharged" \in DOMAIN e) => BEq(BAdd(BAdd(burnt, paid), BSub(M2.debt, M1.debt)), e.twinCharged)
          /\ \A a \in {e.tr[j][2] : j \in {k \in Idx(e.tr) : e.tr[k][1] = e.m}} : a \in {"f099", "rep"}
          /\ ActiveSet(M2) \cap DlAll(M2, e.dl + 1) \subseteq ActiveSet(M1) \cap DlAll(M1, e.dl + 1)
          /\ ActiveSet(M2) \cap DlAll(M2, e.dl + 1) # ActiveSet(M1) \cap DlAll(M1, e.dl + 1)
@@ -349,6 +355,11 @@ DebtOnlyRepaidByBurn(pre, e) ==
   \A i \in Idx(e.st.miners) :
      LET M2 == e.st.miners[i] M1 == MinerByName(pre, M2.m) IN
      BLeq(M2.debt, M1.debt) => BLeq(BSub(M1.debt, M2.debt), SentFrom(e.tr, M2.m, "f099"))
+
+\* "over time exactly the locked amount unlocks, no more and no less": for a miner whose proving-deadline cron runs,
+\* an entry whose epoch has passed is released by the next deadline's callback -- none stays locked for more than two
+\* challenge windows (the total is tied to the table by VestExact, early release is excluded by NoEarlyUnlock)
+VestNotOverdue(Wd, M) == M.cronActive => \A k \in Idx(M.vest) : M.vest[k][1] + 2 * W_ >= Wd.epoch
 
 \* ---- C14: the vesting table
 VestShape(Wd) ==
